@@ -217,7 +217,7 @@ fn vq_c10_cubic_multiplicative_decrease_body(full: bool) {
 }
 
 // ---------------------------------------------------------------------------------------------------
-//@ harness props=C10 tier=quick level=bounded timeout=600 flags=cbrtf bound="window: whole bytes in [2*mds, 2^30]; W_max, W_last_max: whole packets < 2^16"
+//@ harness props=C10 tier=quick level=bounded timeout=900 flags=cbrtf bound="window: whole bytes in [2*mds, 2^30]; W_max, W_last_max: whole packets < 2^16"
 //@ fn CubicCongestionController::on_packet_lost
 //@ fn CubicCongestionController::on_congestion_event
 #[kani::proof]
@@ -281,7 +281,7 @@ fn vq_c10_cubic_on_packet_lost_body(full: bool) {
     kani::cover!(true, "reach:end");
 }
 
-//@ harness props=C10 tier=quick level=bounded timeout=600 flags=cbrtf bound="window: whole bytes in [2*mds, 2^30]; W_max, W_last_max: whole packets < 2^16"
+//@ harness props=C10 tier=quick level=bounded timeout=900 flags=cbrtf bound="window: whole bytes in [2*mds, 2^30]; W_max, W_last_max: whole packets < 2^16"
 //@ fn CubicCongestionController::on_explicit_congestion
 //@ fn CubicCongestionController::on_congestion_event
 #[kani::proof]
@@ -333,7 +333,7 @@ fn vq_c10_cubic_on_explicit_congestion_body(full: bool) {
 }
 
 // ---------------------------------------------------------------------------------------------------
-//@ harness props=C10 tier=quick level=full timeout=300 flags=cbrtf
+//@ harness props=C10 tier=quick level=full timeout=400 flags=cbrtf
 //@ fn CubicCongestionController::on_packet_sent
 //@ fn CubicCongestionController::is_congestion_window_under_utilized
 #[kani::proof]
@@ -474,12 +474,9 @@ fn vq_c10_cubic_on_mtu_update_body(old: u16, new: u16) {
     let scaled = (cwnd / old as f32) * new as f32;
     // known input class of the finding below: the rescaled window does not fit the u32 the code casts through
     let known = scaled >= TWO_POW_32;
-    if !known {
-        let expect = core::cmp::max(scaled as u32, iw) as f32;
-        assert!(cc.congestion_window == expect, "C10/cubic.on_mtu_update/window_scaled_by_datagram_size");
-    } else {
-        assert!(cc.congestion_window == TWO_POW_32, "C10/cubic.on_mtu_update/oversized_window_saturates_not_wraps");
-    }
+    let expect = if known { TWO_POW_32 } else { core::cmp::max(scaled as u32, iw) as f32 };
+    assert!(known || cc.congestion_window == expect, "C10/cubic.on_mtu_update/window_scaled_by_datagram_size");
+    assert!(!known || cc.congestion_window == TWO_POW_32, "C10/cubic.on_mtu_update/oversized_window_saturates_not_wraps");
     assert!(known || cc.congestion_window < TWO_POW_32, "C10/cubic.on_mtu_update/window_representable_no_overflow#outside-known");
     assert!(*cc.bytes_in_flight == bif && kind(&cc) == k0, "C10/cubic.on_mtu_update/frame");
     kani::cover!(cwnd == 2.0 * old as f32, "reach:at_minimum_window_of_old_size");
@@ -502,7 +499,7 @@ fn any_rtt() -> RttEstimator {
     RttEstimator::new(Duration::from_millis(if kani::any() { 1 } else { 100 }))
 }
 
-//@ harness props=C10 tier=quick level=full timeout=300 flags=cbrtf
+//@ harness props=C10 tier=quick level=full timeout=900 flags=cbrtf
 //@ fn CubicCongestionController::on_ack
 #[kani::proof]
 #[kani::unwind(3)]
